@@ -917,9 +917,6 @@ def services_stage(prop, tier, seed, replay):
                             u = wire.unalias(v)
                             if u[0] == "bin" and kind == "body":
                                 args[rust_arg_name(a["argName"])] = json.dumps("hex:" + u[1].hex())
-                            elif u[0] == "opt" and u[1] is not None and wire.unalias(u[1])[0] == "bin" and kind == "body":
-                                ok = False      # optional<binary> request bodies: left out (client signature differs)
-                                break
                             else:
                                 args[rust_arg_name(a["argName"])] = wire.render(c, v, t, wire.Style())
                             vals[a["argName"]] = (v, t, kind)
@@ -1389,13 +1386,12 @@ def force_small_limits(wire, g, ir):
                     continue
                 bt = wire.dealias(c, bodies[0]["type"])
                 optional = bt["type"] == "optional"
-                if bt == BIN or (optional and wire.dealias(c, bt["optional"]["itemType"]) == BIN):
+                if bt == BIN:
                     continue
                 yield e, bodies[0], optional
     found = list(serializable_bodies())
     if not any(o for _, _, o in found):
-        # (not a collection: the call dispatchers written by `genrun drive` do not marshal optional slices)
-        required = [(e, a) for e, a, o in found if not o and wire.dealias(c, a["type"])["type"] in ("primitive", "reference")]
+        required = [(e, a) for e, a, o in found if not o]
         if len(required) >= 2:
             # no endpoint with an optional body was drawn: make the last required body optional
             e, a = required[-1]
@@ -1442,8 +1438,8 @@ def bodies_stage(prop, tier, seed, replay):
                     continue
                 ba = bodies[0]
                 bt = wire.dealias(c, ba["type"])
-                if bt == BIN or (bt["type"] == "optional" and wire.dealias(c, bt["optional"]["itemType"]) == BIN):
-                    continue        # streaming binary bodies are not "serializable request bodies"
+                if bt == BIN:
+                    continue        # streaming binary bodies are not "serializable request bodies" (optional<binary> is one: Base64 in JSON)
                 optional = bt["type"] == "optional"
                 limit = endpoint_limit(e)
                 for k in range(30 if tier == "quick" else 120):
@@ -1591,9 +1587,6 @@ def responses_stage(prop, tier, seed, replay):
                         u = wire.unalias(v)
                         if u[0] == "bin" and kind == "body":
                             args[rust_arg_name(a["argName"])] = json.dumps("hex:" + u[1].hex())
-                        elif u[0] == "opt" and u[1] is not None and wire.unalias(u[1])[0] == "bin" and kind == "body":
-                            ok = False
-                            break
                         else:
                             args[rust_arg_name(a["argName"])] = wire.render(c, v, a["type"], wire.Style())
                     if not ok:
